@@ -167,8 +167,8 @@ func solveOne(rep *FuncReport, o *Obligation, idx int, opt SolveOptions) {
 	timeout := opt.Timeout
 	if o.ExpectSat {
 		// vacuity queries: only a definite "unsat" is bad
-		if timeout > 5*time.Second {
-			timeout = 5 * time.Second
+		if timeout > 2*time.Second {
+			timeout = 2 * time.Second
 		}
 		r := runSolver(solvers[0], file, timeout, opt.Seeds[0])
 		o.ByWhich[solvers[0].name] = r.status
